@@ -99,6 +99,17 @@ func (w *World) ShortRewardKnobs(rewardTimeLimit int64, updateMin uint64) {
 	w.OnClose(func() { constants.RewardTimeLimit, constants.UpdateMinNumMomentums = o1, o2 })
 }
 
+// ShortRevokeWindows shortens the lock / revoke cycles of pillar and sentinel collateral (protocol:
+// 83+7 and 27+3 days) so that revocations happen inside a run. Restored when the world closes.
+func (w *World) ShortRevokeWindows(pillarLock, pillarRevoke, sentinelLock, sentinelRevoke int64) {
+	o1, o2, o3, o4 := constants.PillarEpochLockTime, constants.PillarEpochRevokeTime, constants.SentinelLockTimeWindow, constants.SentinelRevokeTimeWindow
+	constants.PillarEpochLockTime, constants.PillarEpochRevokeTime = pillarLock, pillarRevoke
+	constants.SentinelLockTimeWindow, constants.SentinelRevokeTimeWindow = sentinelLock, sentinelRevoke
+	w.OnClose(func() {
+		constants.PillarEpochLockTime, constants.PillarEpochRevokeTime, constants.SentinelLockTimeWindow, constants.SentinelRevokeTimeWindow = o1, o2, o3, o4
+	})
+}
+
 // EnforceReceiverRule sets the height from which a receive must be made by the
 // send's addressee (mainnet default is ~10.1M, beyond any simulated chain).
 func (w *World) EnforceReceiverRule(h uint64) {
